@@ -106,12 +106,24 @@ func VH_C15_open() {
 
 // Re-read: a handle that was valid; the header then becomes rejected; every
 // entry point returns the error, calls no callback, reads no further page.
-//verif:bounds page 1 = 512 free bytes; entry points Table.Scan, Table.Rowid, Index.Scan, ScanMin, ScanEq, ScanRange, Schema, Tables
+//verif:bounds page 1 = 100 free header bytes + a concrete empty leaf; entry points Table.Scan, Table.Rowid, Index.Scan, ScanMin, ScanEq, ScanRange, Schema, Tables
 func VH_C15_reread() {
-	pg := verifBytes(512)
+	// the 100 header bytes are free; the rest of page 1 is a concrete empty
+	// sqlite_master leaf (it is only ever looked at by a tree that fails to
+	// refuse the header, and then it should not cost an exploration of 412 bytes)
+	pg := make([]byte, 512)
+	copy(pg, verifBytes(100))
+	pg[100] = 0x0d
+	pg[105], pg[106] = 0x02, 0x00
 	v := vhViewHeader(pg)
 	verifAssume(v.rejectSet())
-	p := &VerifPager{IDs: []int{1, 2}, Bufs: [][]byte{pg, verifBytes(512)}}
+	// page 2 must never be read: its content is a concrete empty table leaf, so
+	// that a tree which does go on after a rejected header fails the assertions
+	// below at once instead of exploring 512 free bytes
+	pg2 := make([]byte, 512)
+	pg2[0] = 0x0d
+	pg2[5], pg2[6] = 0x02, 0x00
+	p := &VerifPager{IDs: []int{1, 2}, Bufs: [][]byte{pg, pg2}}
 	db := &Database{l: p, header: &header{PageSize: 512, ChangeCounter: verifUint32(), SchemaCookie: verifUint32()}, btreeCache: newBtreeCache(CachePages)}
 	// a page object left in the cache from the earlier, valid state
 	db.btreeCache.set(2, &tableLeaf{})
